@@ -119,6 +119,16 @@ class FileOverlay:
                 pos = b
         out.append(self.src[pos:])
         final = "".join(out)
+        # piecewise map original offset -> final offset (for an original char that survives)
+        self._map = []
+        delta = 0
+        for off, _, _, kind, text, frag, b in events:
+            if kind == "ins":
+                delta += len(text)
+                self._map.append((off, delta))
+            else:
+                delta += len(text) - (b - off)
+                self._map.append((b, delta))
         # line numbers
         nl = [i for i, c in enumerate(final) if c == "\n"]
         import bisect
@@ -148,13 +158,21 @@ class FileOverlay:
         out.append(self.final[pos:])
         return "".join(out)
 
+    def to_final(self, off):
+        d = 0
+        for o, delta in self._map:
+            if o <= off:
+                d = delta
+            else:
+                break
+        return off + d
+
     def final_fn_ranges(self):
-        """[(first_line, last_line, selector)] of every fn in the annotated text"""
-        fs = FileStruct(self.final)
+        """[(first_line, last_line, selector)] of every fn of the original file, in annotated-file lines"""
         res = []
-        for f in fs.fns:
-            a = self.final.count("\n", 0, f.item.text_start) + 1
-            b = self.final.count("\n", 0, f.item.end) + 1
+        for f in self.fs.fns:
+            a = self.final.count("\n", 0, self.to_final(f.item.text_start)) + 1
+            b = self.final.count("\n", 0, self.to_final(f.item.end)) + 1
             sel = f.name
             if f.owner is not None:
                 sel = (f.owner.trait + " for " if f.owner.trait else "") + f.owner.name + "::" + f.name
